@@ -44,6 +44,11 @@ func (o *c14valObj) P2(a string, b int) string {
 	*o.rec = append(*o.rec, s)
 	return s
 }
+func (o c14valObj) MAny(a string, b interface{}) string {
+	s := fmt.Sprintf("MAny<%s>(%q,%v)", o.tag, a, b)
+	*o.rec = append(*o.rec, s)
+	return s
+}
 func (o c14valObj) M1(a string) string {
 	s := fmt.Sprintf("M1<%s>(%q)", o.tag, a)
 	*o.rec = append(*o.rec, s)
@@ -88,6 +93,13 @@ func c14vars(log *[]string) jet.VarMap {
 	vars.Set("fv", func(a string, rest ...int) string { return rec(fmt.Sprintf("fv(%q,%v)", a, rest)) })
 	vars.Set("fvs", func(parts ...string) string { return rec(fmt.Sprintf("fvs(%q)", parts)) })
 	vars.Set("fi2", func(a, b int) string { return rec(fmt.Sprintf("fi2(%d,%d)", a, b)) })
+	vars.Set("fany", func(a interface{}) string { return rec(fmt.Sprintf("fany(%v)", a)) })
+	vars.Set("fptr", func(a *c14valObj) string { return rec(fmt.Sprintf("fptr(%v)", a == nil)) })
+	vars.Set("fsl", func(a []string) string { return rec(fmt.Sprintf("fsl(%v)", a)) })
+	vars.Set("fmp", func(a map[string]int) string { return rec(fmt.Sprintf("fmp(%v)", a)) })
+	vars.Set("ffn", func(a func() string) string { return rec(fmt.Sprintf("ffn(%v)", a == nil)) })
+	vars.Set("fsany", func(a string, b interface{}) string { return rec(fmt.Sprintf("fsany(%q,%v)", a, b)) })
+	vars.Set("fanyi", func(a interface{}, b int) string { return rec(fmt.Sprintf("fanyi(%v,%d)", a, b)) })
 	vars.Set("obj", c14valObj{rec: log, tag: "v"})
 	vars.Set("pobj", &c14valObj{rec: log, tag: "p"})
 	vars.SetFunc("jf", func(a jet.Arguments) reflect.Value {
@@ -347,6 +359,10 @@ var c14errCases = []struct{ name, src string }{
 	{"inconvertible-string-to-int", `f2("a", "b")`}, {"inconvertible-piped", `"x" | fi2: 1`}, {"inconvertible-slot", `"x" | f2("a", _)`}, {"inconvertible-variadic-tail", `fv("a", 1, "x")`},
 	{"inconvertible-slot-in-variadic-tail", `"x" | fv("a", 1, _)`}, {"inconvertible-struct", `f1(st)`}, {"inconvertible-method-arg", `obj.M2("a", "b")`},
 	{"nil-argument", `f1(nil)`}, {"nil-piped", `nil | f1`}, {"nil-in-variadic-tail", `fv("a", nil)`}, {"nil-slot", `nil | f2("a", _)`},
+	// nil is no value for a parameter of any type, the types that have a nil of their own (interfaces, pointers, slices, maps, functions) included
+	{"nil-argument-for-interface-parameter", `fany(nil)`}, {"nil-argument-for-interface-parameter-prefix", `fany: nil`}, {"nil-argument-for-pointer-parameter", `fptr(nil)`},
+	{"nil-argument-for-slice-parameter", `fsl(nil)`}, {"nil-argument-for-map-parameter", `fmp(nil)`}, {"nil-argument-for-func-parameter", `ffn(nil)`},
+	{"nil-argument-behind-piped-value", `"ab" | fsany: nil`}, {"nil-argument-before-slot", `2 | fanyi(nil, _)`}, {"absent-entry-for-interface-parameter", `fany(fns.absent)`}, {"nil-argument-for-method-interface-parameter", `obj.MAny("l", nil)`},
 	{"two-slots-is-parse-error", `1 | f2(_, _)`},
 	{"safewriter-not-last", `"a" | raw | f1`}, {"safewriter-first-not-last", `unsafe: "a" | f1`}, {"safewriter-first-then-jetfunc", `unsafe: "a" | jf`}, {"safewriter-middle", `"a" | f1 | safeHtml | f1`},
 	{"slot-without-pipe", `f2("a", _)`}, {"slot-without-pipe-jetfunc", `jf(_)`},
@@ -483,7 +499,7 @@ func init() {
 		ID:        "C14",
 		Technique: "metamorphic monitor with recorded call log: every surface form of a call intent must render and call exactly like the plain call; built-ins compared differentially with the Go functions they expose",
 		Rule: "60 rebinding histories first (one Set, the same templates executed while the name of a built-in is rebound in VarMap and Set globals: x | f, x | g | f, x | f(), f: x and f(x) must all call what f resolves to in that execution); then 2/5 of the cases: a call intent (callee among reflected fixed-arity funcs, variadic funcs, value/pointer-receiver methods and a jet.Func; arguments among string/raw-string/number literals and variables needing conversion: named string, int8, uint16, float64) is printed as f(x,a,b), f: x,a,b, x | f: a,b, x | f(a,b) and with the '_' slot at every position (incl. the variadic tail); " +
-			"output and the recorded (callee, received arguments) log must equal the plain call's, with exactly one call; 1/5: pipelines of 2-4 stages (mixed forms and slots) against the nested plain calls, innermost first, each once; 1/5: 35 directed error cases (wrong count in every form, inconvertible or nil arguments incl. slots and variadic tails, misplaced SafeWriter stages, '_' without pipe) must fail without panicking; " +
+			"output and the recorded (callee, received arguments) log must equal the plain call's, with exactly one call; 1/5: pipelines of 2-4 stages (mixed forms and slots) against the nested plain calls, innermost first, each once; 1/5: 45 directed error cases (wrong count in every form, inconvertible or nil arguments incl. slots, variadic tails and parameters of interface/pointer/slice/map/func type, misplaced SafeWriter stages, '_' without pipe) must fail without panicking; " +
 			"1/5: built-ins lower, upper, hasPrefix, hasSuffix, repeat, replace, split, trimSpace, html, url, json, writeJson, len (string, slice, map, array, *slice, **slice, struct, chan, interface), ints, map, slice/array on random arguments against the Go functions; non-trivial = intent with >=3 forms and an argument needing conversion; distinct by (callee, arity, argument kinds)",
 		Assumptions: []string{"numeric arguments that need conversion are integral (float truncation is Go's conversion rule)"},
 		NCases:      c14n,
